@@ -1,10 +1,8 @@
 ID = 'C15'
-FS0 = ['--max-field-sensitivity-array-size', '0']
 FS512 = ['--max-field-sensitivity-array-size', '512']
 CUTS = [r'^_ZN5phosg8io_errorC1Ei$', r'^_ZN5phosg16string_for_errorB5cxx11Ei$']
 SUBST = {'Process.cc': [(r'read\(this->stdout_read_fd, 4096\)', 'read(this->stdout_read_fd, VERIF_COMM_BLOCK)', 1)]}
 UNITS = {
-    'old': dict(wrap='wrap.cc', shim=True, new_block=64, cuts=CUTS, cxxflags=['-DVERIF_COMM_BLOCK=4', '-DVERIF_DEQUE_CAP=4'], src_subst=SUBST),
     'proc': dict(wrap='wrap.cc', shim=True, new_block=64, cuts=CUTS + ['basic_stringIcSt11char_traitsIcESaIcEE9_M_createERmm$'],
                  cxxflags=['-DVERIF_COMM_BLOCK=4', '-DVERIF_DEQUE_CAP=4', '-fno-inline'], src_subst=SUBST,
                  ir2c_flags=['--ptrdiff', '--flat-unions', '--zero-allocas'], gen_defs=['VERIF_NEW_POOL=16', 'VERIF_NEW_POOL_LIFO'], extra_c=['sso_bound.c']),
@@ -14,12 +12,43 @@ STUBS = []
 OUTSIDE = []
 ASSUMPTIONS = []
 
-def Q(name, unit, defs, unwind, unwindset='', flags=FS512, mem_gb=8, timeout=600, **kw):
-    return dict(name=name, unit=unit, harness='h_comm.c', defs=defs, unwind=unwind, unwindset=unwindset, timeout=timeout, mem_gb=mem_gb, flags=flags, backend='cadical', desc=name, bounds='', **kw)
+LB = '_ZSt13__lower_boundIN9__gnu_cxx17__normal_iteratorIP6pollfdSt6vectorIS2_SaIS2_EEEES2_NS0_5__ops14_Iter_comp_valIZN5phosg4Poll'
+COMM = '_ZN5phosg10Subprocess11communicateB5cxx11EPKvmm'
+DQ = '_ZNSt5dequeINSt7__cxx1112basic_stringIcSt11char_traitsIcESaIcEEEvE'
+UM = '_ZNSt13unordered_mapIisvvvE'
+
+
+def comm_unwindset(w, in_n, tmax, main_iters):
+    nf = 2 if in_n else 1
+    d = {'harness.0': 7, 'harness.1': tmax + 3, 'harness.2': 7, 'harness.3': 7, 'harness.4': 7,
+         'harness.5': tmax + 3, 'harness.6': tmax + 3, 'harness.7': tmax + 3, 'harness.8': tmax + 3, 'harness.9': tmax + 3,
+         'in_bytes.0': 5, 'model_reset.0': in_n + 2, 'child_run.0': 7, 'child_run.1': 7, 'poll_scan.0': 4, 'X_poll.0': 8, 'X_read.0': 5, 'X_write.0': in_n + 2,
+         'X_waitpid.0': 7, 'run_case.0': in_n + 2, 'run_case.1': 7, 'run_case.2': 5,
+         DQ + 'D2Ev.0': 6, DQ + 'C2Ev.0': 6, LB + '3addEisE3__0EEET_SE_SE_RKT0_T1__c653dc.0': 3, LB + '6removeEibE3__1EEET_SE_SE_RKT0_T1__b9d0c1.0': 3,
+         COMM + '.0': main_iters, COMM + '.1': w + 3, COMM + '.2': w + 2,
+         '_ZNKSt13unordered_mapIisvvvE4findERKi.0': 5, UM + '7emplaceIJRKiEJRKsEEESt4pairINS0_8iteratorEbESt21piecewise_construct_tSt5tupleIJDpT_EESA_IJDpT0_EE.0': 5,
+         UM + '5clearEv.0': 5, UM + 'C2Ev.0': 5, UM + 'C2EOS0_.0': 5,
+         'verif_memset_loop.0': 6, 'verif_memcpy_loop.0': 6, '_ZN5phosg10Subprocess4waitEb.0': 2, '_ZN5phosg4Poll4pollEi.0': nf + 1,
+         'verif_memmove_loop.0': 8 * (nf - 1) + 2, 'verif_memmove_loop.1': 8 * (nf - 1) + 2, 'strlen.0': 2}
+    return ','.join('%s:%d' % kv for kv in d.items())
+
+
+def Q(name, evs, sched, in_n=0, timeout_us=0, cap=None, mem_gb=4, to=600, **kw):
+    w = sum(int(c) for c in evs if c.isdigit())
+    tmax = 3 * (w + len(evs) + in_n) + 4 + (10 if timeout_us else 0)
+    defs = {'EVS': '"%s"' % evs, 'SCHED': '"%s"' % sched, 'IN_N': in_n, 'TIMEOUT': timeout_us, 'TMAX': tmax}
+    if cap is not None:
+        defs['CAP'] = cap
+    return dict(name=name, unit='proc', harness='h_comm.c', defs=defs, unwind=3, unwindset=comm_unwindset(w, in_n, tmax, w + len(evs) + in_n + 3), timeout=to, mem_gb=mem_gb,
+                flags=FS512, backend='cadical', object_bits=12, desc=name, bounds='', tv_runs=8, **kw)
+
 
 def queries(tier):
     qs = []
-    for unit, fl in (('old', FS0), ('proc', FS512), ):
-        for w, evs in ((0, 'x'), (1, 'wx'), (2, 'wwx')):
-            qs.append(Q('%s_w%d_sym' % (unit, w), unit, {'W': w, 'EVS': '"%s"' % evs, 'TMAX': 8 + 3 * w}, 8, flags=fl, mem_gb=10))
+    qs.append(Q('c_1x_00', '1x', '00'))
+    qs.append(Q('c_1x_03', '1x', '03'))
+    qs.append(Q('c_1x_s3', '1x', '*3'))
+    qs.append(Q('c_1x_ss', '1x', '**'))
+    qs.append(Q('c_2x_s5', '2x', '*5'))
+    qs.append(Q('c_11x_ss5', '11x', '**5'))
     return qs
